@@ -458,10 +458,10 @@ func enumerate(r *eng.Rand, thorough bool, add func(group string, ps pset, varia
 // number and sizes of the Q and P primes, auxiliary modulus or power-of-two decomposition, ring
 // type, NTT or coefficient domain, secret distribution, plaintext modulus, default scale, parties.
 func enumerateRandom(r *eng.Rand, thorough bool, add func(group string, ps pset, variant string, po *pset), addRace func(group string, ps pset, variant string, po *pset, G, procs, reps int)) {
-	n := 5
-	maxLogN := 7
+	n := 12
+	maxLogN := 8
 	if thorough {
-		n, maxLogN = 40, 9
+		n, maxLogN = 60, 10
 	}
 	pick := func(xs ...int) int { return eng.Pick(r, xs...) }
 	bitsN := func(k int, xs ...int) []int {
@@ -548,6 +548,10 @@ func enumerateRandom(r *eng.Rand, thorough bool, add func(group string, ps pset,
 				}
 				ps.T = eng.Pick(r, uint64(65537), 65537, 257, 97, 786433)
 				add("bgv", ps, "", nil)
+				if i%3 == 0 && logN <= 7 {
+					ps.Name += "-race"
+					addRace("bgv", ps, "", nil, pick(2, 3, 4), pick(2, 4, 16), 1)
+				}
 			}
 		}
 		// ckks
@@ -591,7 +595,12 @@ func enumerateRandom(r *eng.Rand, thorough bool, add func(group string, ps pset,
 			if ok {
 				ps.NoNTT = r.N(4) == 0
 				ps.Xs = eng.Pick(r, "", "h")
-				add("mp", ps, fmt.Sprintf("n%d", 1+r.N(5)), nil)
+				np := 1 + r.N(5)
+				add("mp", ps, fmt.Sprintf("n%d", np), nil)
+				if i%4 == 1 {
+					ps.Name += "-race"
+					addRace("mp", ps, fmt.Sprintf("n%d", np), nil, pick(2, 4, 8), pick(2, 4, 16), 1)
+				}
 			}
 		}
 		// mpbgv with another output chain every other time
